@@ -303,6 +303,8 @@ def run(prog, run):
     r1(prog, run, ctx)
     r2(prog, run, ctx)
     r3(prog, run)
+    r4(prog, run)
+    r5(prog, run)
 
 
 # ------------------------------------------------------------------------------------------- R0
@@ -621,3 +623,81 @@ def r3(prog, run):
             else:
                 run.violation(rid, '%s#reply-addressing' % top.qname, f.loc(i),
                               'hand-built %s reply has id=%s to=%s: it does not answer the request it was built for' % (t.lower(), ids or 'unset', tos or 'unset'))
+
+
+def r4(prog, run):
+    rid = run.rule('C08.R4', 'the consumers that see a received IQ before the extensions do (the matcher of replies to our own requests) never claim a get/set: a request '
+                             'whose id happens to equal the id of one of our pending requests still reaches a handler or the fall-back', floor=2)
+    he = prog.fn('QXmppOutgoingClient::handleElement')
+    early = []
+    pipeline = [i for i, n in he.calls() if he.cname(n) in ('QXmppOutgoingClient::elementReceived', 'QXmppOutgoingClient::handleStanza')]
+    for i, n in he.calls():
+        cn = he.cname(n)
+        if cn.endswith('::handleStanza') and cn not in ('QXmppOutgoingClient::handleStanza',) and 'StreamAckManager' not in cn \
+                and pipeline and any(he.node_dominates(i, p) for p in pipeline):
+            for g in prog.callee_fns(he, n):
+                if g.entry is not None and g.id not in [x.id for x in early]:
+                    early.append(g)
+    if not early:
+        raise AnalysisBroken('C08.R4: no consumer ahead of the extension pipeline found in QXmppOutgoingClient::handleElement (OutgoingIqManager::handleStanza expected)')
+    for g in early:
+        for T in ('Get', 'Set'):
+            run.instance(rid)
+            evc = type_evaluator(g, T)
+            reach = cfgx.reach_with_paths(g, evc)
+            bad = None
+            for i, n in g.returns():
+                pos = g.pos(i)
+                if pos and pos[0] in reach and 'e' in n and g.const_value(n['e']) != ('bool', False):
+                    v = evc(g, n['e'], None)
+                    if v is not False:
+                        bad = (i, reach[pos[0]])
+            if bad:
+                run.violation(rid, '%s#claims-%s' % (g.qname, T.lower()), g.loc(bad[0]),
+                              '%s can claim an IQ of type %s (return %s): the request is consumed as if it were the reply to one of our own requests and is never answered'
+                              % (g.qname.split('::', 2)[-1], T.lower(), g.fmt(g.nodes[bad[0]]['e'])[:40]), cfgx.describe_path(g, bad[1]))
+            else:
+                run.ok(rid, g.loc(), '%s never claims an IQ of type %s' % (g.qname.split('::', 2)[-1], T.lower()))
+
+
+def r5(prog, run):
+    rid = run.rule('C08.R5', 'a slot that answers a stored request (sends a result/error IQ) is one-shot: before any reply it disconnects itself from the signal that '
+                             'invokes it, or consumes the latch member it tested (a signal that fires again - a further state change, a second candidate - must not '
+                             'produce a second reply to the same request)', floor=2)
+    from ..callgraph import connects
+    slots = {}
+    for c in connects(prog):
+        if c['kind'] == 'slot':
+            slots.setdefault(c['target']['qname'], set()).add(c['signal']['qname'])
+    seen = 0
+    for qn, sigs in sorted(slots.items()):
+        f = prog.fn(qn, required=False)
+        if f is None or '/src/client/' not in f.file:
+            continue
+        sends = [i for i, n in f.calls() if f.cname(n) in SEND and n.get('args') and iq_local_type(f, n['args'][0]) in ('Result', 'Error')]
+        if not sends:
+            continue
+        seen += 1
+        discs = []
+        for i, n in f.calls():
+            if f.cname(n).endswith('::disconnect') and any(f.nodes[j]['k'] in ('fnref', 'methref') and f.cname(f.nodes[j]) == qn for a in n.get('args', []) for j in f.walk(a)):
+                discs.append(i)
+        latches = []
+        for i, n in f.all_nodes('assign'):
+            l = f.nodes[f.skip(n['l'])]
+            if l['k'] == 'mem' and f.const_value(n['r']) in (('null', None), ('bool', False), ('int', 0)):
+                tested = any(f.nodes[j]['k'] == 'mem' and f.nodes[j].get('f') == l['f'] for c, pol in f.atomic_assertions_at(i) for j in f.walk(c))
+                if tested:
+                    latches.append(i)
+        for sd in sends:
+            run.instance(rid)
+            if any(f.node_dominates(d, sd) for d in discs):
+                run.ok(rid, f.loc(sd), '%s: disconnects itself from %s before replying' % (qn.split('::')[-1], '/'.join(sorted(x.split('::')[-1] for x in sigs))))
+            elif any(f.node_dominates(a, sd) for a in latches):
+                run.ok(rid, f.loc(sd), '%s: the latch it tested is cleared before replying' % qn.split('::')[-1])
+            else:
+                run.violation(rid, '%s#replies-again' % qn, f.loc(sd),
+                              '%s sends an IQ reply but stays connected to %s on this path (no self-disconnect and no consumed latch before the reply): when the signal fires again the '
+                              'same request is answered a second time' % (qn, '/'.join(sorted(sigs))))
+    if not seen:
+        raise AnalysisBroken('C08.R5: no slot that sends an IQ reply found (QXmppTransferManager::_q_jobStateChanged expected)')
